@@ -431,7 +431,25 @@ func c20Bounds(c *core.Ctx) {
 		isLen := func(e ast.Expr) bool {
 			terms, _ := linear(info, e)
 			for _, t := range terms {
-				ce, ok := ast.Unparen(t.E).(*ast.CallExpr)
+				te := ast.Unparen(t.E)
+				// `size := len(s.elements)` names the length as long as the elements are not replaced between
+				// the definition and this use
+				if _, isID := te.(*ast.Ident); isID {
+					if d, k := m.SingleDef(te); k {
+						if dc, isC := ast.Unparen(d).(*ast.CallExpr); isC {
+							stale := false
+							for _, a := range fieldAssigns(m, "Slice.elements") {
+								if g.CanFollow(a.Loc, g.LocOf(te)) {
+									stale = true
+								}
+							}
+							if !stale {
+								te = dc
+							}
+						}
+					}
+				}
+				ce, ok := te.(*ast.CallExpr)
 				if ok && len(ce.Args) == 1 {
 					if id, ok := ce.Fun.(*ast.Ident); ok && id.Name == "len" && fieldOf(info, ce.Args[0]) == "Slice.elements" && t.Sign > 0 {
 						return true
